@@ -92,6 +92,7 @@ type mcase struct {
 	ID    int      `json:"id"`
 	Names []string `json:"names"` // only in the header line
 	F     filt     `json:"f"`
+	Tmpl  *string  `json:"tmpl"` // aggregation cases only: the output template
 }
 
 func TestMatcher(t *testing.T) {
@@ -138,6 +139,17 @@ func TestMatcher(t *testing.T) {
 			// self-check of the SPECIFICATION: Go's regexp on the rendered pattern
 			re := regexp.MustCompile(c.F.Regex)
 			res["re2"] = bits(n, func(i int) bool { return re.Match(names[i]) })
+			if c.Tmpl != nil {
+				// self-check of the SPECIFICATION's submatch / template semantics (Matcher!OutKey): Go's regexp
+				// alone (no code of the relay involved) on the rendered pattern and template
+				keys := make([]string, n)
+				for i := range names {
+					if loc := re.FindSubmatchIndex(names[i]); loc != nil {
+						keys[i] = string(re.Expand(nil, []byte(*c.Tmpl), names[i], loc))
+					}
+				}
+				res["re2keys"] = keys
+			}
 		}
 		if c.F.NotRegex != "" {
 			re := regexp.MustCompile(c.F.NotRegex)
@@ -387,6 +399,9 @@ type chist struct {
 	F    filt            `json:"f"`
 	Ast  json.RawMessage `json:"ast"`
 	Wait uint            `json:"wait"`
+	Tmpl string          `json:"tmpl"` // output template as rendered by the specification
+	Tast json.RawMessage `json:"tast"` // ... and as the specification reads it
+	Drop bool            `json:"drop"`
 	Ops  []cop           `json:"ops"`
 }
 
@@ -419,11 +434,12 @@ func TestCache(t *testing.T) {
 		now := func() time.Time { return time.Unix(atomic.LoadInt64(&clk), 0) }
 		tick := make(chan time.Time)
 		sink := make(chan []byte, 4096)
-		agg, err := aggregator.NewMocked("count", m, "c.out", true, 1, h.Wait, true, sink, 0, now, tick)
+		agg, err := aggregator.NewMocked("count", m, h.Tmpl, true, 1, h.Wait, h.Drop, sink, 0, now, tick)
 		if err != nil {
 			t.Fatalf("aggregator: %v", err)
 		}
-		out.Emit(map[string]interface{}{"ev": "hist", "h": h.H, "f": h.Ast, "wait": h.Wait, "go": h.F})
+		out.Emit(map[string]interface{}{"ev": "hist", "h": h.H, "f": h.Ast, "t": h.Tast, "drop": h.Drop, "wait": h.Wait,
+			"go": h.F, "tmpl": h.Tmpl})
 		for _, o := range h.Ops {
 			switch o.Op {
 			case "clock":
@@ -437,18 +453,20 @@ func TestCache(t *testing.T) {
 			case "tick":
 				tick <- time.Unix(o.T, 0)
 				agg.Snapshot()
-				res := [][]int64{}
+				// every line the aggregator produced: output name, quantum, count ("name count quantum";
+				// the name may be empty, the names used contain no blank)
+				res := []map[string]interface{}{}
 			drain:
 				for {
 					select {
 					case l := <-sink:
-						_, v, q, ok := parseAgg(l)
+						k, v, q, ok := parseAgg(l)
 						fv, e1 := strconv.ParseFloat(v, 64)
 						qi, e2 := strconv.ParseInt(q, 10, 64)
 						if !ok || e1 != nil || e2 != nil || fv != float64(int64(fv)) {
-							res = append(res, []int64{-1, -1})
+							res = append(res, map[string]interface{}{"k": chars(string(l)), "q": -1, "c": -1})
 						} else {
-							res = append(res, []int64{qi, int64(fv)})
+							res = append(res, map[string]interface{}{"k": chars(k), "q": qi, "c": int64(fv)})
 						}
 					default:
 						break drain
